@@ -354,6 +354,48 @@ impl Check for C10Check {
             let ops = vec![Op::Feed("コ\rx".into()), Op::Feed("\x1b[2;2H日\x08y".into())];
             c10_history_case(cx, 4, 3, &ops, &mut rng, "witness");
         }
+        // every Unicode scalar value in a cell, rendered (a) followed by text, (b) with the cell to
+        // its right overwritten afterwards (what is left of a double-width character then), (c)
+        // appended to a narrow and to a wide base
+        if cx.begin_group("unicode sweep") {
+            let mut complete = true;
+            for cp in 0..=0x10ffffu32 {
+                if !cx.mine(cp as u64) {
+                    continue;
+                }
+                let ch = match char::from_u32(cp) {
+                    Some(c) => c,
+                    None => continue,
+                };
+                if cp % 4096 == 0 && (cx.used() > 0.5 || cx.out_of_time()) {
+                    complete = false;
+                    break;
+                }
+                let hist: Vec<Op> = match cp % 3 {
+                    0 => vec![Op::Api(Call::Draw(format!("{}xy", ch)))],
+                    1 => vec![Op::Api(Call::Draw(ch.to_string())), Op::Api(Call::CursorPosition(Some(1), Some(2))), Op::Api(Call::Draw("x".into()))],
+                    _ => vec![Op::Api(Call::Draw(format!("a{}{}{}", ch, '\u{65e5}', ch)))],
+                };
+                let mut sys = Sys::new(5, 2, PK::None);
+                sys.set_recording(false, false);
+                let mut ok = true;
+                for op in &hist {
+                    ok &= sys.try_apply(op).is_ok();
+                }
+                if ok {
+                    let mk = || {
+                        let mut case = Case::new("C10", "faithful", 5, 2, PK::None);
+                        case.ops = hist.clone();
+                        case
+                    };
+                    c10_faithful(cx, &sys, &mk);
+                }
+            }
+            if complete {
+                cx.stats.count("unicode_sweeps_completed", 1);
+                cx.stats.exhaustive_parts.insert("every Unicode scalar value (1 112 064) rendered by display() - followed by text, with its right-hand neighbour overwritten, or appended to a narrow and a wide base (by code point mod 3) - on a 5x2 screen".into());
+            }
+        }
         while !cx.out_of_time() {
             let (c, l) = gen::pick_geom(&mut cx.rng, cx.tier);
             let mut rng = cx.rng.fork(9);
@@ -375,7 +417,7 @@ impl Check for C10Check {
     }
     fn replay(&self, case: &Case, cx: &mut Ctx) {
         if case.kind == "faithful" {
-            let mut sys = Sys::new(case.columns, case.lines, PK::Chars);
+            let mut sys = Sys::new(case.columns, case.lines, case.pk);
             sys.set_recording(false, false);
             for op in &case.ops {
                 if sys.try_apply(op).is_err() {
